@@ -78,6 +78,43 @@ theorem blocked_call_proceeds (clients : List (List Op)) (cbs : List (Hid × Lis
   have := no_deadlock clients cbs emit sched hok hone hq ti t ht
   rw [hb] at this; cases this
 
+/-! The same three statements with a hypothesis on the PROGRAM instead of on the run: `start()` occurs in the script of
+    at most one client thread `c` (any number of times; callbacks may call it too).  Every `start()` after the first
+    raises RuntimeError and touches nothing (defect D20), so there is at most one dispatcher thread
+    (`ProofsObs.oneD_of_single_starter`). -/
+
+theorem no_deadlock_single_starter (clients : List (List Op)) (cbs : List (Hid × List (List Op)))
+    (emit : List (Wid × List Nat)) (sched : List Nat) (hok : runOk (init clients cbs emit) sched = true) (c : Nat)
+    (hc : ∀ (i : Nat) (ops : List Op), clients[i]? = some ops → Op.start ∈ ops → i = c)
+    (hq : Quiescent (run (init clients cbs emit) sched)) (ti : Nat) (t : Thread)
+    (ht : (run (init clients cbs emit) sched).thread? ti = some t) : idlePc t.pc = true :=
+  no_deadlock clients cbs emit sched hok (count_of_oneD (oneD_of_single_starter clients cbs emit sched c hc hok)) hq ti t ht
+
+theorem stop_ends_all_single_starter (clients : List (List Op)) (cbs : List (Hid × List (List Op)))
+    (emit : List (Wid × List Nat)) (sched : List Nat) (hok : runOk (init clients cbs emit) sched = true) (c : Nat)
+    (hc : ∀ (i : Nat) (ops : List Op), clients[i]? = some ops → Op.start ∈ ops → i = c)
+    (hq : Quiescent (run (init clients cbs emit) sched))
+    (hstop : Obs.did .stop "ok" ∈ (run (init clients cbs emit) sched).hist)
+    (hreg : (run (init clients cbs emit) sched).regEm = [])
+    (ti : Nat) (t : Thread) (ht : (run (init clients cbs emit) sched).thread? ti = some t) : t.pc = .done :=
+  stop_ends_all clients cbs emit sched hok (count_of_oneD (oneD_of_single_starter clients cbs emit sched c hc hok)) hq
+    hstop hreg ti t ht
+
+theorem blocked_call_proceeds_single_starter (clients : List (List Op)) (cbs : List (Hid × List (List Op)))
+    (emit : List (Wid × List Nat)) (sched : List Nat) (hok : runOk (init clients cbs emit) sched = true) (c : Nat)
+    (hc : ∀ (i : Nat) (ops : List Op), clients[i]? = some ops → Op.start ∈ ops → i = c)
+    (ti : Nat) (t : Thread) (ht : (run (init clients cbs emit) sched).thread? ti = some t) (hb : idlePc t.pc = false) :
+    ∃ tj, enabled (run (init clients cbs emit) sched) tj = true :=
+  blocked_call_proceeds clients cbs emit sched hok
+    (count_of_oneD (oneD_of_single_starter clients cbs emit sched c hc hok)) ti t ht hb
+
+/-- a second `start()` on a started observer raises RuntimeError and leaves the state as it is: no thread is spawned,
+    no emitter is touched (one step of the model; the code: `if self.ident is not None: raise`, D20) -/
+theorem second_start_raises (s : State) (ti d : Nat) (fuel : Nat) (hd : s.dIdx = some d) :
+    startOp (fuel + 1) s ti .start = finishOp fuel s ti "raised:RuntimeError" := by
+  unfold startOp
+  simp [hd]
+
 /-- `observer.join()` returns only once the dispatcher thread has ended -/
 theorem join_waits_for_dispatcher (s : State) (ti d : Nat) (t : Thread)
     (ht : s.thread? ti = some t) (hpc : t.pc = .joinD) (hd : s.dIdx = some d)
